@@ -178,6 +178,7 @@ def run(prop, tier, seed, replay=None):
         for a, n in m.coverage.items():
             cover[a] = cover.get(a, 0) + n
         models.append(dict(cfg=base + ".cfg", states=m.distinct, transitions=m.generated, wall_s=round(m.wall, 1)))
+        presc = {json.dumps([tkey(c), c["tok"]], sort_keys=True): (c["status"], c["reached"]) for c in m.printed}
         g = vlib.tlc("HttpGuard", base + ".gen.cfg", workers=WORKERS, timeout=900)
         if not g.ok:
             raise Inconclusive("TLC %s.gen: %s %s" % (base, g.violation, g.error))
@@ -186,10 +187,6 @@ def run(prop, tier, seed, replay=None):
             c["fam"] = fam
         predicted_bad += sum(1 for c in g.printed if c["bad"])
         models.append(dict(cfg=base + ".gen.cfg", states=g.distinct, cases=len(g.printed), wall_s=round(g.wall, 1)))
-        gp = vlib.tlc("HttpGuard", base + ".genp.cfg", workers=WORKERS, timeout=900)
-        if not gp.ok:
-            raise Inconclusive("TLC %s.genp: %s %s" % (base, gp.violation, gp.error))
-        presc = {json.dumps([tkey(c), c["tok"]], sort_keys=True): (c["status"], c["reached"]) for c in gp.printed}
         for c in g.printed:
             c["presc"] = list(presc[json.dumps([tkey(c), c["tok"]], sort_keys=True)])
         cases += g.printed
